@@ -5,7 +5,7 @@ On success copies it to /verif/seeded/<prop>-<mk>/ with meta.json extended by wh
 import json, os, re, shutil, subprocess, sys, tempfile
 ENV = dict(os.environ, GOFLAGS="-mod=mod", GOPROXY="off", GOSUMDB="off", GOTOOLCHAIN="local")
 def sh(cmd, cwd, timeout=1200):
-    p = subprocess.run(cmd, shell=True, cwd=cwd, env=ENV, capture_output=True, text=True, timeout=timeout)
+    p = subprocess.run(cmd, shell=True, cwd=cwd, env=ENV, capture_output=True, text=True, errors="replace", timeout=timeout)
     return p.returncode, (p.stdout + p.stderr)
 def confirm(sd):
     sd = os.path.abspath(sd)
